@@ -5,6 +5,7 @@ CONSTANTS
  Sigma <- SigmaS
  Names <- NamesS
  Roots <- RootsOA
+ HistK = 0
  EmitOn = FALSE
 VIEW View
 INVARIANTS Strict NoOob
